@@ -1,11 +1,13 @@
 #!/bin/bash
-# Builds the framework offline from files on disk (pre-warms the build cache).
+# Builds the framework offline from files on disk (pre-warms the build cache
+# and pre-builds every check binary; the checks rebuild incrementally from
+# /repo's current tree on every run).
 set -e
 export GOFLAGS=-mod=mod GOPROXY=off GOSUMDB=off GOTOOLCHAIN=local
 export GOCACHE=/verif/.cache/go-build
 mkdir -p /verif/bin /verif/evidence /verif/replays /verif/.cache
-cd /verif/harness
-cat /repo/go.sum go.sum.extra 2>/dev/null | sort -u > go.sum
-go build -tags verif -o /verif/bin/vh ./cmd/vh
-[ -x /verif/setup-extra.sh ] && /verif/setup-extra.sh
+cd /verif
+for id in C01 C14 C18 C16 C09; do
+  VERIF_BUILD_ONLY=1 ./vcheck $id quick || { echo "setup: pre-build of $id failed" >&2; exit 1; }
+done
 echo setup ok
